@@ -259,9 +259,21 @@ def op_strings(ops):
 # ------------------------------------------------------- the implementation
 class Impl:
     """A real Application built from ops; handlers record what they see."""
+    _mode = itertools.count()
+
     def __init__(self, ops, debug, root, index):
         self.app = new_app()
+        # debug is the attribute unless the request environment overrides
+        # it: three ways to reach the same effective setting
+        mode = next(Impl._mode) % 3
+        self.extra = None
         self.app.debug = debug
+        if mode == 1:
+            self.app.debug = not debug
+            self.extra = {"poor_Debug": ("On", "oN")[len(ops) % 2] if debug
+                          else ("Off", "oFF", "0")[len(ops) % 3]}
+        elif mode == 2:
+            self.extra = {"poor_Debug": ""}
         if root:
             self.app.document_root = root
             self.app.document_index = index
@@ -314,7 +326,8 @@ class Impl:
 
     def probe(self, method, path_info):
         self.state.clear()
-        ans = call(self.app, environ(method=method, path=path_info))
+        ans = call(self.app, environ(method=method, path=path_info,
+                                     extra=self.extra))
         before = self.state.get("before")
         ran = self.state.get("ran")
         rule, uhv = (before if before else (None, None))
@@ -618,6 +631,7 @@ def make_scenario(rng, nroutes):
                     filters.append(need)
             chosen.append(("route", text))
             samples.extend(paths)
+            samples.extend(r[2] for r in REDEF.values() if r[1] == text)
         else:
             text, paths = rng.choice(RAW)
             chosen.append(("regular", text))
@@ -628,11 +642,24 @@ def make_scenario(rng, nroutes):
     return chosen, filters, samples
 
 
+# a filter defined again after a route used it: only routes registered
+# afterwards see the new definition, also when their text was seen before
+REDEF = {
+    "slug": (("slug", r"[A-Z]+_[0-9]", "str"), "/s/<s:slug>", "/s/AB_1"),
+    "uint": ((":uint", r"[a-f]+", "str"), "/q/<q:uint>", "/q/abc"),
+    "tag": (("tag", r"[a-z]+\d", "int"), "/t/<t:tag>", "/t/ab1"),
+}
+
+
 def ops_of(chosen, filters, masks, default, order):
     ops = [("filter",) + UFILTERS[f] for f in filters]
     for hid in order:
         kind, text = chosen[hid]
         ops.append((kind, text, hid + 1, masks[hid]))
+    for name in filters:
+        if name in REDEF and any(t == REDEF[name][1] for _, t in chosen):
+            ops.append(("filter",) + REDEF[name][0])
+            ops.append(("route", REDEF[name][1], 200 + len(ops), 511))
     if default:
         ops.append(("default", 100, default[0]))
         if len(default) > 1:
@@ -839,6 +866,17 @@ def body(ctx, rng, quick, root):
         ctx.count("directed-tables", len(orders))
         run_table(chosen, [], masks, [None, (511,), (4, 2)][didx % 3],
                   didx % 2 == 1, False, False, orders, [probes])
+
+    # a filter redefined between two registrations of the same rule text
+    chosen = [("route", "/s/<s:slug>"), ("route", "/q/<q:uint>"),
+              ("route", "/t/<t:tag>")]
+    probes = [(meth, path_info_of(path))
+              for path in ["/s/b-c", "/s/AB_1", "/s/ab_1", "/q/10", "/q/abc",
+                           "/q/1a", "/t/Ab", "/t/ab1", "/t/ab", "/s/", "/q"]
+              for meth in ["GET", "POST", "HEAD", "DELETE"]]
+    ctx.count("redefinition-tables", 2)
+    run_table(chosen, ["slug", "uint", "tag"], [2, 3, 4], (511,), False,
+              False, False, [[0, 1, 2], [2, 0, 1]], [probes])
 
     for sidx in range(nscen):
         chosen, filters, samples = make_scenario(rng, rng.choice([1, 2, 3, 4]))
